@@ -64,6 +64,12 @@ fn edge_lengths_big() -> Vec<u32> {
             v.push((base as i32 + d) as u32);
         }
     }
+    // lengths whose vu64 code has 4 bytes (>= 2 MiB) and the 16 MiB bound of the property
+    for base in [2097152u32, 3 << 20, 4 << 20, 16 << 20] {
+        for d in [-4i32, -3, -1, 0, 1] {
+            v.push((base as i32 + d) as u32);
+        }
+    }
     v
 }
 
@@ -191,7 +197,7 @@ pub fn key_len_strategy(p: KeyProfile) -> BoxedStrategy<u32> {
             10 => proptest::sample::select(tight),
             4 => 0u32..=40,
             3 => 100u32..=1000,
-            1 => proptest::sample::select(vec![4090u32, 4096, 4097, 65535, 65536]),
+            1 => proptest::sample::select(vec![4090u32, 4096, 4097, 65535, 65536, 131070, 131072, 200000]),
         ]
         .boxed(),
     }
@@ -245,22 +251,29 @@ pub fn dedup_keys(ks: Vec<Key>) -> Vec<Key> {
     out
 }
 
-/// re-seed pattern keys so that they fall into the wanted buckets of an n-bucket table
+/// re-seed pattern keys so that they fall into the wanted buckets of an n-bucket table.
+/// With one wanted bucket every key is aimed at it; with several, a key may land in any of them
+/// (round-robin preference for tables up to 2^16 buckets, where exact aiming is cheap).
 pub fn target_keys(ks: Vec<Key>, n: u64, wanted: &[u64]) -> Vec<Key> {
     if wanted.is_empty() || n == 0 {
         return ks;
     }
+    let set: std::collections::HashSet<u64> = wanted.iter().map(|w| w % n).collect();
+    let exact = wanted.len() == 1 || n <= 65536;
+    // expected tries: n (exact) or n / |set|; bounded so that generation stays cheap
+    let max_tries: u64 = if exact { (n * 24 + 64).min(2_000_000) } else { ((n / set.len() as u64 + 1) * 24).min(2_000_000) };
     let mut out = Vec::new();
     let mut seen = std::collections::HashSet::new();
     for (i, k) in ks.into_iter().enumerate() {
         let want = wanted[i % wanted.len()] % n;
+        let hit = |b: u64| if exact { b == want } else { set.contains(&b) };
         let nk = match k {
             Key::P { len, seed } if len >= 3 => {
                 let mut s = seed;
                 let mut found = None;
-                for _ in 0..(n * 24 + 64).min(3_000_000) {
+                for _ in 0..max_tries {
                     let c = Key::P { len, seed: s };
-                    if bucket_of(&c.bytes(), n) == want {
+                    if hit(bucket_of(&c.bytes(), n)) {
                         found = Some(c);
                         break;
                     }
@@ -271,9 +284,9 @@ pub fn target_keys(ks: Vec<Key>, n: u64, wanted: &[u64]) -> Vec<Key> {
             Key::S { len, seed } if len >= 3 => {
                 let mut s = seed;
                 let mut found = None;
-                for _ in 0..(n * 24 + 64).min(3_000_000) {
+                for _ in 0..max_tries {
                     let c = Key::S { len, seed: s };
-                    if bucket_of(&c.bytes(), n) == want {
+                    if hit(bucket_of(&c.bytes(), n)) {
                         found = Some(c);
                         break;
                     }
@@ -299,6 +312,21 @@ pub fn edge_buckets(n: u64) -> Vec<u64> {
     let nn = n as i64;
     for d in [1, 2, 7, 8, 9, 10, 15, 16, 17, 63, 64, 65, 71, 72, 73] {
         v.push(nn - d);
+    }
+    // tables whose occupancy bitmap crosses a 128 KiB buffer chunk (>= 2^20 buckets): the bucket
+    // groups whose bitmap byte is the last / first byte of a chunk of the table file
+    if n >= (1 << 20) {
+        let mut kk = 1i64;
+        while kk * 131072 * 8 < nn + 131072 * 8 && kk <= 16 {
+            // bitmap byte j lies at file offset 128 + 8n + j; 8n is a multiple of the chunk size
+            let j = kk * 131072 - 128;
+            for d in [-2i64, -1, 0, 1] {
+                for b in [0i64, 7] {
+                    v.push((j + d) * 8 + b);
+                }
+            }
+            kk += 1;
+        }
     }
     let mut o: Vec<u64> = v.into_iter().filter(|&x| x >= 0 && x < nn).map(|x| x as u64).collect();
     o.sort();
@@ -341,6 +369,7 @@ pub fn bufp_strategy(p: BufProfile) -> BoxedStrategy<BufP> {
             1 => Just(BufP::PerMille(2000)),
             1 => proptest::sample::select(vec![1u16, 20, 500, 999]).prop_map(BufP::PerMille),
             3 => proptest::sample::select(vec![0u32, 1, 131072, 262144, 300000, 1048576]).prop_map(BufP::Size),
+            1 => proptest::sample::select(vec![16u32 << 20, 255 << 20, 256 << 20, (256 << 20) + 4096, 512 << 20, 1 << 30, 1 << 31, u32::MAX, u32::MAX - 131071]).prop_map(BufP::Size),
         ]
         .boxed(),
     }
@@ -378,7 +407,7 @@ pub fn size_bounds(keys: &[Key], ops: &[Op]) -> (u64, u64) {
     let vslot = |l: usize| ((l as u64 * 3 + 16 + 128) / 128 + 1) * 128;
     for op in ops {
         match op {
-            Op::Put { v, .. } | Op::PutStr { v, .. } => {
+            Op::Put { v, .. } | Op::PutStr { v, .. } | Op::Burst { v, .. } => {
                 vb += vslot(v.len());
                 kb += kslot * 2;
             }
@@ -447,6 +476,8 @@ pub struct Weights {
     pub dbsync: u32,
     pub handles: u32,
     pub reopen: u32,
+    /// per-mille (of the total weight) of bursts of 255..65537 identical puts
+    pub burst: u32,
 }
 
 impl Weights {
@@ -468,6 +499,7 @@ impl Weights {
             dbsync: 0,
             handles: 0,
             reopen: 0,
+            burst: 0,
         }
     }
 }
@@ -500,6 +532,18 @@ pub fn op_strategy(cfg: &OpsCfg, n_keys: usize, default_params: Params) -> Boxed
             vs.clone()
         };
         alts.push((w.put, (k(), pv).prop_map(|(k, v)| Op::Put { k, v }).boxed()));
+    }
+    if w.burst > 0 {
+        alts.push((
+            w.burst,
+            (
+                k(),
+                val_strategy(ValProfile::Small),
+                proptest::sample::select(vec![255u32, 256, 257, 65535, 65536, 65537, 65534, 131072]),
+            )
+                .prop_map(|(k, v, n)| Op::Burst { k, v, n })
+                .boxed(),
+        ));
     }
     if w.get > 0 {
         alts.push((w.get, k().prop_map(|k| Op::Get { k }).boxed()));
@@ -578,9 +622,11 @@ pub fn op_strategy(cfg: &OpsCfg, n_keys: usize, default_params: Params) -> Boxed
     if w.iter > 0 {
         alts.push((
             w.iter,
-            (0u8..7, proptest::option::weighted(0.3, 0u16..20))
-                .prop_map(|(f, take)| Op::Iter { f, take })
-                .boxed(),
+            prop_oneof![
+                4 => (0u8..7, proptest::option::weighted(0.3, 0u16..20)).prop_map(|(f, take)| Op::Iter { f, take }),
+                1 => (0u8..7, 0u8..5, k()).prop_map(|(f, every, k)| Op::IterMix { f, every, k }),
+            ]
+            .boxed(),
         ));
     }
     if w.stats > 0 {
@@ -605,6 +651,7 @@ pub fn op_strategy(cfg: &OpsCfg, n_keys: usize, default_params: Params) -> Boxed
             prop_oneof![
                 2 => Just(Op::CloneHandle),
                 1 => Just(Op::DropHandle),
+                1 => Just(Op::DropAll),
                 2 => Just(Op::Reacquire),
                 1 => Just(Op::CloneDb),
                 4 => (0..nm).prop_map(|m| Op::Use { m }),
@@ -662,6 +709,8 @@ pub struct HistCfg {
     pub special_keys: bool,
     /// use the default table (16 Mi buckets, 134 MB sparse table file)
     pub default_table: bool,
+    /// use a table of exactly this many buckets (beyond the usual list of sizes)
+    pub big_table: Option<u64>,
 }
 
 #[derive(Clone, Copy, Debug, PartialEq, Eq)]
@@ -672,10 +721,26 @@ pub enum Prelude {
     Inflate { val_bytes: u64, key_bytes: u64 },
     /// n distinct small entries
     ManyEntries(u32),
+    /// n entries with values of ~1.1-1.6 KB, every second one deleted again: n/2 slots on the
+    /// shared large free list
+    ManyLargeFree(u32),
 }
 
 /// turn a configuration into a "dense chains" one: hundreds of keys in a table of 1..4 buckets
 /// (or 8 via Capacity), mostly inserts, so that bucket chains grow far beyond 256 entries
+/// one bucket, thousands of keys: a single chain of more than 4096 links
+pub fn make_very_dense(cfg: &mut HistCfg) {
+    make_dense(cfg, true);
+    cfg.max_buckets = 1;
+    cfg.n_keys = 4200..=9000;
+    cfg.ops.n_ops = 5000..=11000;
+    cfg.ops.w.put = 85;
+    cfg.ops.w.del = 5;
+    cfg.ops.w.get = 8;
+    cfg.ops.w.reopen = 0;
+    cfg.obs.decode_every_op = false;
+}
+
 pub fn make_dense(cfg: &mut HistCfg, thorough: bool) {
     cfg.allow_lt8 = true;
     cfg.max_buckets = 4;
@@ -708,6 +773,27 @@ fn special_key_set(kt: Kt) -> Vec<Key> {
     let mut z = base.clone();
     z.push(0);
     v.push(Key::B(z));
+    // families of DIFFERENT keys with the SAME full 64-bit placement hash (constructed with the
+    // re-implemented hash: for 16-byte keys the second word can cancel any change of the first)
+    for fam in 0..2u64 {
+        let w1: u64 = 0x6b65_795f_0000_0000 + fam * 0x0101;
+        let w2: u64 = 0x3031_3233_3435_3637 + fam;
+        let mix = |mut x: u64| -> u64 {
+            x ^= x >> 12;
+            x ^= x << 25;
+            x ^= x >> 27;
+            x
+        };
+        let s0 = mix(u64::from_be_bytes(16u64.to_ne_bytes()));
+        let target = mix(s0.wrapping_add(w1)).wrapping_add(w2);
+        for j in 0..3u64 {
+            let w1b = w1 ^ (j * 0x0001_0000_0001);
+            let w2b = target.wrapping_sub(mix(s0.wrapping_add(w1b)));
+            let mut k = w1b.to_be_bytes().to_vec();
+            k.extend_from_slice(&w2b.to_be_bytes());
+            v.push(Key::B(k));
+        }
+    }
     v
 }
 
@@ -747,6 +833,25 @@ fn prelude_ops(p: Prelude, kt: Kt, keys: &mut Vec<Key>) -> Vec<Op> {
                 }
             }
         }
+        Prelude::ManyLargeFree(n) => {
+            let mut ks = Vec::new();
+            // one big slot that ends up buried at the far end of the (LIFO) free list
+            let kbig = filler(keys, 999_999, 9);
+            ops.push(Op::Put { k: kbig, v: Val::P { len: 6000, seed: 1 } });
+            for i in 0..n {
+                let k = filler(keys, i, 9);
+                ks.push(k);
+                ops.push(Op::Put { k, v: Val::P { len: 1100 + (i % 4) * 128, seed: i } });
+            }
+            ops.push(Op::Del { k: kbig });
+            for (i, k) in ks.iter().enumerate() {
+                if i % 2 == 0 {
+                    ops.push(Op::Del { k: *k });
+                }
+            }
+            // a request only the buried slot can hold
+            ops.push(Op::Put { k: kbig, v: Val::P { len: 5000, seed: 2 } });
+        }
         Prelude::ManyEntries(n) => {
             for i in 0..n {
                                 let k = filler(keys, i, 9);
@@ -767,6 +872,13 @@ pub fn rare_regions(c: &mut HistCfg, index: u64) {
     } else if index % 200 == 33 {
         c.kts = vec![Kt::Bytes, Kt::String];
         c.prelude = Prelude::Inflate { val_bytes: 0, key_bytes: 2_200_000 };
+    } else if index % 200 == 57 {
+        // value file beyond 16 MiB: offsets/8 need a 4-byte code
+        c.prelude = Prelude::Inflate { val_bytes: 17 * 1024 * 1024, key_bytes: 0 };
+    } else if index % 200 == 91 {
+        // thousands of slots on the shared large free list
+        c.prelude = Prelude::ManyLargeFree(9000);
+        c.ops.val = ValProfile::LargeList;
     }
 }
 
@@ -785,11 +897,15 @@ pub fn history_strategy(cfg: HistCfg) -> BoxedStrategy<History> {
             if cfg.default_table {
                 params.buckets = Buckets::Default;
             }
+            if let Some(n) = cfg.big_table {
+                params.buckets = Buckets::BucketsSize(n);
+            }
             let keys = keys_strategy(kt, cfg.key, cfg.n_keys.clone());
             let cfg3 = cfg.clone();
             keys.prop_flat_map(move |keys| {
                 let n = params.buckets.bucket_count();
                 let keys = if tdraw < cfg3.target_pct && matches!(kt, Kt::Bytes | Kt::String) {
+                    let tmode = if n > 65536 { 0 } else { tmode };
                     let wanted: Vec<u64> = match tmode {
                         0 => edge_buckets(n),
                         1 => vec![n.saturating_sub(9).min(n - 1)],
@@ -836,6 +952,9 @@ pub fn history_strategy(cfg: HistCfg) -> BoxedStrategy<History> {
                 ops_st.prop_map(move |ops| {
                     let mut keys = keys.clone();
                     let mut all = prelude_ops(prelude, kt, &mut keys);
+                    // the last two prelude ops stay observed (the extend-only rule needs the state
+                    // before the final request)
+                    let quiet = all.len().saturating_sub(2);
                     all.extend(ops);
                     let ops = all;
                     let (kb, vb) = size_bounds(&keys, &ops);
@@ -866,6 +985,7 @@ pub fn history_strategy(cfg: HistCfg) -> BoxedStrategy<History> {
                         ops,
                         obs: obs.clone(),
                         excluded: ex,
+                        quiet_prefix: quiet,
                     }
                 })
             })
